@@ -61,6 +61,10 @@ impl Hook {
     ) -> Result<(), AxError> {
         ax.hooks.running = true;
 
+        // Only a hook that stops execution ends the phase early, not a run that already finished
+        // (e.g. after hooks of the last instruction, which all have to run)
+        let was_finished = ax.state.finished;
+
         let functions = if before {
             &self.native_before
         } else {
@@ -76,7 +80,7 @@ impl Hook {
                     return Err(e.into());
                 }
             };
-            if ax.state.finished || res == HookResult::Handled {
+            if (ax.state.finished && !was_finished) || res == HookResult::Handled {
                 ax.hooks.running = false;
                 return Ok(());
             }
@@ -95,7 +99,7 @@ impl Hook {
                     ax.hooks.running = false;
                     return Err(e.into());
                 }
-                if ax.state.finished {
+                if ax.state.finished && !was_finished {
                     ax.hooks.running = false;
                     return Ok(());
                 }
